@@ -392,6 +392,15 @@ func callsWithArg(rel, fn, callee, arg string) int {
 }
 
 // countStmts counts the statements of fn whose source text (single line, gofmt style) equals text.
+// fileHas: the source file contains the text
+func fileHas(rel, text string) bool {
+	b, err := os.ReadFile(filepath.Join(repo, rel))
+	if err != nil {
+		fatal("cannot read %s: %v", rel, err)
+	}
+	return strings.Contains(string(b), text)
+}
+
 func countStmts(rel, fn, text string) int {
 	fd := findFunc(rel, fn)
 	if fd == nil {
@@ -1452,6 +1461,37 @@ func main() {
 		"DefaultIteratorSamplingRate"} {
 		o.nat("opt"+n, optEnv[n], "leveldb/opt/options.go:"+n)
 	}
+
+	// the strict flags (C19: what recoverTable masks, what GetStrict falls back to)
+	for _, n := range []string{"StrictManifest", "StrictJournalChecksum", "StrictJournal", "StrictBlockChecksum", "StrictCompaction",
+		"StrictReader", "StrictRecovery", "StrictAll", "DefaultStrict"} {
+		o.nat("opt"+n, optEnv[n], "leveldb/opt/options.go:"+n)
+	}
+	o.boolean("noStrictIsComplementOfAll", fileHas("leveldb/opt/options.go", "NoStrict = ^StrictAll") && fileHas("leveldb/opt/options.go", "type Strict uint\n"),
+		"`type Strict uint` and `NoStrict = ^StrictAll`")
+	o.boolean("getStrictZeroMeansDefault",
+		ifBodyHas("leveldb/opt/options.go", "Options.GetStrict", "o == nil || o.Strict == 0", "return DefaultStrict&strict != 0") &&
+			countStmts("leveldb/opt/options.go", "Options.GetStrict", "return o.Strict&strict != 0") == 1,
+		"`Options.GetStrict`: `if o == nil || o.Strict == 0 { return DefaultStrict&strict != 0 }; return o.Strict&strict != 0`")
+	o.boolean("dupOptionsZeroMeansDefault",
+		ifBodyHas("leveldb/options.go", "dupOptions", "newo.Strict == 0", "newo.Strict = opt.DefaultStrict"),
+		"`dupOptions`: `if newo.Strict == 0 { newo.Strict = opt.DefaultStrict }`")
+	o.boolean("recoverMasksStrictReader",
+		countStmts("leveldb/db.go", "recoverTable", "o.Strict &= ^opt.StrictReader") == 1 &&
+			textBefore("leveldb/db.go", "recoverTable", "o = dupOptions(s.o.Options)", "o.Strict &= ^opt.StrictReader") &&
+			textBefore("leveldb/db.go", "recoverTable", "o.Strict &= ^opt.StrictReader", "s.stor.List(storage.TypeTable)") &&
+			strings.Count(funcText("leveldb/db.go", "recoverTable"), "o.Strict") == func() int {
+				if ifBodyHas("leveldb/db.go", "recoverTable", "o.Strict == 0", "o.Strict = opt.NoStrict") {
+					return 3
+				}
+				return 1
+			}(),
+		"`recoverTable` works on `o = dupOptions(s.o.Options)` with `o.Strict &= ^opt.StrictReader` and changes `o.Strict` nowhere else (but for the zero repair)")
+	o.boolean("recoverMaskZeroBecomesNoStrict",
+		ifBodyHas("leveldb/db.go", "recoverTable", "o.Strict == 0", "o.Strict = opt.NoStrict") &&
+			textBefore("leveldb/db.go", "recoverTable", "o.Strict &= ^opt.StrictReader", "o.Strict == 0") &&
+			textBefore("leveldb/db.go", "recoverTable", "o.Strict = opt.NoStrict", "s.stor.List(storage.TypeTable)"),
+		"`recoverTable`: `if o.Strict == 0 { o.Strict = opt.NoStrict }` right after the mask (the D58 repair)")
 
 	// function-local constants and literal call arguments
 	hashEnv := localEnv("leveldb/util/hash.go", "Hash", nil)
